@@ -359,7 +359,9 @@ class RF24Mesh(RF24MeshNoMaster):
                 # signed 16-bit reply (like TMRh20's RF24Mesh) can carry the -2 code
                 self.frame_buf.message = struct.pack("<h", ret_val)
                 self._write(self.frame_buf.header.to_node, TX_NORMAL)
-            elif msg_t == MESH_ADDR_RELEASE:
+            elif msg_t == MESH_ADDR_RELEASE and self.frame_buf.header.from_node:
+                # (a frame claiming to come from address 0 is not a node's release: with
+                # address 0 release_address() means "this node gives up its own address")
                 self.release_address(self.frame_buf.header.from_node)
             self._dhcp()
         return msg_t
